@@ -23,8 +23,9 @@ ENGINE = 'E1 domain'
 LEVEL = 'model_checking'
 LEVEL_TEXT = (
     'Every operator tree with up to 3 (quick) / 4 (thorough) operator nodes over all 18 binary and 2 unary '
-    'operators, with numeric leaves of rotating types, and every tree with up to 2 (quick) / 3 (thorough, '
-    'reduced relational/logical alphabet) nodes under every assignment of the four types to its leaves, is '
+    'operators, with numeric leaves of rotating types (2 patterns; 1 at 4 nodes), and every tree with up to 2 '
+    '(quick) / 3 (thorough, reduced relational/logical alphabet, default session) nodes under every assignment '
+    'of the four types to its leaves, in a default session and in a double=True session, is '
     'printed with minimal, full and redundant parentheses, evaluated by the real expression parser and '
     'compared (class and bytes) with the bottom-up value of the tree; the result class is also checked '
     'against the typing rules of the statement; ill-typed trees and missing operands must raise '
@@ -617,7 +618,12 @@ def work_trees(shard):
     count = 0
     for shape in iter_shard(trees, n, sh):
         t, k = number_leaves(shape)
-        pats = patterns_grouping(k) if mode == 'grouping' else patterns_all(k)
+        if mode == 'grouping':
+            pats = patterns_grouping(k)
+            if n >= 4:
+                pats = pats[:1]         # one rotating type pattern at the deepest level
+        else:
+            pats = patterns_all(k)
         for types in pats:
             check_tree(part, env, t, k, types, legname, want_typing=True)
             count += 1
@@ -709,12 +715,12 @@ def legs(ctx):
     total = sum(len(full.shapes(n)) for n in range(nmax + 1))
     out.append(Leg('grouping', shards, work_trees, exhaustive=True,
                    bound='all %d operator trees with <= %d operator nodes over 18 binary + 2 unary operators x 2 '
-                         'rotating numeric leaf type patterns x 3 printings' % (total, nmax)))
+                         'rotating numeric leaf type patterns (1 at 4 nodes) x 3 printings' % (total, nmax)))
     # typing: all leaf type patterns
     for double in (False, True):
         shards = []
         tot = 0
-        plan = [(n, False) for n in range(0, 3)] + ([] if q else [(3, True)])
+        plan = [(n, False) for n in range(0, 3)] + ([] if (q or double) else [(3, True)])
         for n, reduced in plan:
             tr = red if reduced else full
             for sh in root_shards(tr, n, 400 if q else 300):
@@ -723,8 +729,8 @@ def legs(ctx):
         out.append(Leg('typing-double' if double else 'typing', shards, work_trees, exhaustive=True,
                        bound='all %d trees with <= 2 operator nodes (all operators)%s x every assignment of '
                              '{integer, single, double, string} to the leaves x 3 printings; session option double=%s' % (
-                                 tot, '' if q else ' and all trees with 3 nodes over the reduced alphabet %s' % BIN_REDUCED,
-                                 double)))
+                                 tot, '' if (q or double) else
+                                 ' and all trees with 3 nodes over the reduced alphabet %s' % BIN_REDUCED, double)))
     # missing operands
     shards = []
     for n in range(1, 3 if q else 4):
